@@ -186,4 +186,20 @@ CHECKS["C07"] = {
     "engine": "tlc+vh",
 }
 
+CHECKS["C02"] = {
+    "category": "model_checking",
+    "text": "spec/C02.tla makes the Decoder an object (buf, pos) whose every public call is a total action; TLC explores every byte string up to "
+            "a bound over a representative alphabet under short sequences of calls, set_position (also beyond the end) and probe with deadlock "
+            "checking on, and every (input, position, entry point) is replayed. The sweep runs 27 accessors, 110 typed decodes, the tokenizer and "
+            "the display on all 1- and 2-byte inputs and a 3-byte stratum (all 2^24 in thorough) under a panic boundary and a counting allocator; "
+            "the oracle-free part of the invariant is evaluated on every call, violating events and a sample are validated by TLC against the full "
+            "model. Type-directed mutations (one and two boundary head arguments, framing flips, truncation, splices) of valid encodings of every "
+            "built-in instantiation, drop accounting and Size::head/tail are validated the same way.",
+    "design_ref": "DESIGN.md section 6, C02 and section 7 (F1)",
+    "note": "Trusted: TLC; the in-harness monitor for the three oracle-free predicates. Not claimed: absence of undefined behaviour inside unsafe "
+            "code, wall-clock work. Fixed on the way: Duration decode panic.",
+    "technique": "TLA+ spec of the Decoder object with total actions + TLC (deadlock check) + replay + monitored sweep sampled into trace validation",
+    "engine": "tlc+vh",
+}
+
 NOT_YET = "check not built yet in this round (planned in DESIGN.md section 10); not claimed until it exists"
